@@ -73,7 +73,18 @@ func (f *Forge) proposal(id spectypes.OperatorID, round specqbft.Round, value []
 
 func (f *Forge) leader(round specqbft.Round) spectypes.OperatorID {
 	st := &specqbft.State{Height: f.h, Share: f.env.share(1)}
-	return specqbft.RoundRobinProposer(st, round)
+	id, _ := safeLeader(st, round)
+	return id
+}
+
+// safeLeader: the reference RoundRobinProposer indexes the committee with (int(height) % n + int(round) - 1) % n, which is
+// negative (index out of range) for round 0 and for heights / rounds ≥ 2^63. The HARNESS never calls it outside
+// 1 ≤ round < 2^62, height < 2^62 (the node doing so is an observation of the node — recovered per op).
+func safeLeader(st *specqbft.State, round specqbft.Round) (spectypes.OperatorID, bool) {
+	if st == nil || st.Share == nil || len(st.Share.Committee) == 0 || round < 1 || uint64(round) >= 1<<62 || uint64(st.Height) >= 1<<62 {
+		return 0, false
+	}
+	return specqbft.RoundRobinProposer(st, round), true
 }
 
 // subset: k distinct operator ids in random order
